@@ -478,6 +478,18 @@ def b_pow(ip, st, args, kwargs):
             return pow(*args)
         except (ValueError, ZeroDivisionError) as e:
             _raise(type(e).__name__, str(e))
+    if len(args) == 3 and not kwargs:
+        # 3-argument pow(b, x, m), DEFINED from the documented semantics as far as exceptions and range go: ValueError when m == 0;
+        # for x >= 0 the result r is b**x reduced into the range of m (0 <= r < m for m > 0, m < r <= 0 for m < 0).  The value itself
+        # is left unconstrained within that range.  A negative exponent (modular inverse, may or may not exist) is treated as raising:
+        # conservative for "nothing is raised" obligations, and no audited call site passes one.
+        b, x, m = (I(a) for a in args)
+        ip.assumed.add('pow(b, x, m) library model: ValueError iff m == 0 (negative x treated as raising); result unconstrained within the range of m')
+        ip.cond_raise(st, m == 0, 'ValueError', 'pow() 3rd argument cannot be 0')
+        ip.cond_raise(st, x < 0, 'ValueError', 'base is not invertible for the given modulus')
+        r = fresh('powmod', 'int')
+        st.assume(z3.If(m > 0, z3.And(r.t >= 0, r.t < m), z3.And(r.t > m, r.t <= 0)))
+        return r
     raise Unsupported('pow() with symbolic arguments')
 
 
@@ -1413,7 +1425,26 @@ def deep_copy(ip, st, v, memo, engine=False):
     return v
 
 
+def m_SystemRandom(ip, st, args, kwargs):
+    # random.SystemRandom(): an opaque generator object; only randrange(start, stop) is modelled (below)
+    ip.method_models.setdefault(('<SystemRandom>', 'randrange'), m_randrange)
+    return st.new_obj('<SystemRandom>', {})
+
+
+def m_randrange(ip, st, recv, args, kwargs):
+    # randrange(start, stop): ValueError ("empty range") exactly when stop <= start, otherwise ANY integer of [start, stop)
+    if len(args) != 2 or kwargs:
+        raise Unsupported('randrange() form')
+    a, b = I(args[0]), I(args[1])
+    ip.assumed.add('random.SystemRandom().randrange(a, b) library model: ValueError iff b <= a, otherwise any integer of [a, b)')
+    ip.cond_raise(st, b <= a, 'ValueError', 'empty range for randrange()')
+    x = fresh('rand', 'int')
+    st.assume(z3.And(x.t >= a, x.t < b))
+    return x
+
+
 LIB_MODELS = {
+    'random.SystemRandom': m_SystemRandom,
     'io.BytesIO': m_BytesIO,
     'struct.unpack': m_struct_unpack,
     'struct.pack': m_struct_pack,
